@@ -1,8 +1,10 @@
 import Drv.C19
 import Drv.C07
+import Drv.C08
 /-! `drv <model>`: executable models behind a one-line-in, one-line-out protocol. -/
 def main (args : List String) : IO UInt32 := do
   match args with
   | ["c19"] => Drv.pureLoop Drv.C19.step; return 0
   | ["c07"] => Drv.pureLoop Drv.C07.step; return 0
+  | ["c08"] => Drv.loop Drv.C08.step (Drv.C08.init, []); return 0
   | _ => IO.eprintln "usage: drv <model>"; return 2
